@@ -54,7 +54,13 @@ func (c *Client) handshake(ctx context.Context) error {
 			return errors.Wrap(err, "flush")
 		}
 
+		// The server hello is bounded by the handshake timeout (the deadline of
+		// ctx), not by the per-packet read timeout: an idle cloud instance may
+		// need much longer than ReadTimeout to wake up and answer.
+		readTimeout := c.readTimeout
+		c.readTimeout = 0
 		code, err := c.packet(ctx)
+		c.readTimeout = readTimeout
 		if err != nil {
 			return errors.Wrap(err, "packet")
 		}
